@@ -60,6 +60,11 @@ pub fn run(ctx: &mut Ctx) {
     for case in ctx.cases("zero_divisors", 1, false) {
         ctx.run_case("zero_divisors", case, |ctx, _rng| zero_divisors::<{ primes::U64_LARGEST }>(ctx));
     }
+    // recorded collisions of the 64-bit semantic hash under the weights of the once-constant
+    // seed (F18): the hash-identified builders must return the right functions on them
+    for case in ctx.cases("collision_witness", 2, false) {
+        ctx.run_case("collision_witness", case, |ctx, _rng| collision_witness(ctx, case));
+    }
     for case in ctx.cases("semantic_ddnnf", 500, true) {
         ctx.run_case("semantic_ddnnf", case, |ctx, rng| match case % 2 {
             0 => semantic_ddnnf_case::<{ primes::U32_SMALL }>(ctx, rng, false),
@@ -152,12 +157,12 @@ fn hash_case<const P: u128>(ctx: &mut Ctx, rng: &mut Rng, pname: &str) {
             check(ctx, p.neg().semantic_hash(&map).value(), want_neg, "hash.bdd.neg", what.clone());
             // cached == recomputed (one prime and map per builder, S3); ask twice
             for _ in 0..2 {
-                check(ctx, p.cached_semantic_hash(b.order_ref(), &map).value(), want, "hash.bdd.cached", what.clone());
-                check(ctx, p.neg().cached_semantic_hash(b.order_ref(), &map).value(), want_neg, "hash.bdd.cached_neg", what.clone());
+                check(ctx, p.cached_semantic_hash(&b.order_ref(), &map).value(), want, "hash.bdd.cached", what.clone());
+                check(ctx, p.neg().cached_semantic_hash(&b.order_ref(), &map).value(), want_neg, "hash.bdd.cached_neg", what.clone());
             }
             // a second construction history of the same function in the same builder
             let q = b.negate(bdd_from_tt(b, &t.not(), &cfg.order, 0));
-            check(ctx, q.cached_semantic_hash(b.order_ref(), &map).value(), want, "hash.bdd.cached_history", what.clone());
+            check(ctx, q.cached_semantic_hash(&b.order_ref(), &map).value(), want, "hash.bdd.cached_history", what.clone());
             ctx.count("bdd_representations", 1);
         });
     }
@@ -213,7 +218,7 @@ fn hash_case<const P: u128>(ctx: &mut Ctx, rng: &mut Rng, pname: &str) {
                 let node = rsdd::repr::BddNode::new(VarLabel::new(top as u64), l, h);
                 let p = BddPtr::Reg(&node);
                 let what = json!({"handbuilt_bdd_node": shape, "top": top, "high_is_complemented": h.is_neg()});
-                check(ctx, p.cached_semantic_hash(bb.order_ref(), &map).value(), want_h, "hash.bdd.handbuilt.cached", what.clone());
+                check(ctx, p.cached_semantic_hash(&bb.order_ref(), &map).value(), want_h, "hash.bdd.handbuilt.cached", what.clone());
                 check(ctx, p.semantic_hash(&map).value(), want_h, "hash.bdd.handbuilt", what);
                 ctx.count("handbuilt_nodes", 1);
             }
@@ -791,6 +796,64 @@ fn semantic_ddnnf_case<const P: u128>(ctx: &mut Ctx, rng: &mut Rng, check_functi
                     }
                 }
             }
+        }
+    }
+}
+
+
+/// F18: the two recorded collision witnesses of the semantic hash over `U64_LARGEST`
+fn collision_witness(ctx: &mut Ctx, case: u64) {
+    use crate::witness::*;
+    const P: u128 = primes::U64_LARGEST;
+    ctx.case_eval(Some(crate::rng::mix(0xF18 ^ case)));
+    ctx.count("collision_witnesses_checked", 1);
+    if case == 0 {
+        const N: usize = 7;
+        let vars: Vec<VarLabel> = (0..N).map(|i| VarLabel::new(i as u64)).collect();
+        let builder = SemanticSddBuilder::<P>::new(rsdd::repr::VTree::right_linear(&vars));
+        let b = &builder;
+        let tf = Tt::from_fn(N, |a| SEM_F.contains(&a));
+        let tg = Tt::from_fn(N, |a| SEM_G.contains(&a));
+        // does the recorded pair collide under the weights of this process? (informational)
+        if defining_sum::<P>(&tf, b.map()) == defining_sum::<P>(&tg, b.map()) {
+            ctx.count("witness_pairs_colliding_under_the_current_weights", 1);
+        }
+        let dnf = |models: &[usize]| -> SddPtr {
+            let mut acc = SddPtr::PtrFalse;
+            for m in models {
+                let mut cube = SddPtr::PtrTrue;
+                for i in 0..N {
+                    cube = b.and(cube, b.var(VarLabel::new(i as u64), (m >> i) & 1 == 1));
+                }
+                acc = b.or(acc, cube);
+            }
+            acc
+        };
+        let f = dnf(&SEM_F);
+        let g = dnf(&SEM_G);
+        let d = b.and(f, b.negate(g));
+        let mut w = SddWalker::new(N);
+        for (name, p, exp) in [("F", f, &tf), ("G", g, &tg), ("F & !G", d, &tf)] {
+            let got = w.tt(p);
+            if got != *exp {
+                ctx.violation("semantic.collision_witness", "a hash-identified SDD builder over the 64-bit field returns a diagram of the wrong function (recorded semantic-hash collision)",
+                    json!({"witness": 4, "which": name, "observed": got.hex(), "expected": exp.hex(), "models_of_F": SEM_F.to_vec(), "models_of_G": SEM_G.to_vec()}));
+                return;
+            }
+        }
+        if b.eq(f, g) {
+            ctx.violation("semantic.collision_witness", "two functions with disjoint model sets are judged equal over the 64-bit field (recorded semantic-hash collision)", json!({"witness": 4}));
+        }
+    } else {
+        let cl: Clauses = witness5();
+        let exp = clauses_tt(&cl, 7);
+        let cnf = clauses_to_cnf(&cl);
+        let builder = SemanticDecisionNNFBuilder::<P>::new(VarOrder::linear_order(7));
+        let r = builder.compile_cnf_topdown(&cnf);
+        let got = BddWalker::new(7).tt(r);
+        if got != exp {
+            ctx.violation("semantic.collision_witness", "the hash-identified decision-DNNF builder over the 64-bit field compiles a CNF to the wrong function (recorded semantic-hash collision)",
+                json!({"witness": 5, "observed": got.hex(), "expected": exp.hex(), "clauses": clauses_json(&cl)}));
         }
     }
 }
